@@ -173,3 +173,46 @@ func GenFaultBase(seed int64, idx int) *Scenario {
 	sc.HorizonS = 600
 	return sc
 }
+
+// GenBacklog: one target falls far behind after it has already acknowledged something: it keeps reading
+// but stops acknowledging for a while, so that more than a thousand forwarded tasks are outstanding on
+// its stream (the sender's proxy-id table wraps and grows with a non-zero head), then resumes.
+func GenBacklog(seed int64, idx int) *Scenario {
+	rng := rand.New(rand.NewSource(seed))
+	pairs := [][2]int{{1, 1}, {2, 1}, {1, 2}, {2, 2}}
+	p := pairs[idx%len(pairs)]
+	sc := &Scenario{Class: "fair", Seed: seed, NL: p[0], NR: p[1], PeriodMS: 1000, NWf: 1 + rng.Intn(3),
+		Scripts: map[string][]Batch{}, Final: map[string]int64{}, Targets: map[string]TargetBeh{}, Window: 8}
+	for c := 1; c <= 2; c++ {
+		n := sc.NL
+		if c == 2 {
+			n = sc.NR
+		}
+		for i := 1; i <= n; i++ {
+			name := shardName(c, i)
+			var s []Batch
+			id := int64(1000)
+			nt := 0
+			if c == 1 { // L sources flood, R sources idle
+				nt = 1300 + rng.Intn(900)
+			}
+			for k := 0; k < nt; k++ {
+				w := 0
+				if k == 30 {
+					w = 3000 // let the first acknowledgements happen before the flood
+				}
+				s = append(s, Batch{IDs: []int64{id}, High: id + 1, WaitMS: w})
+				id++
+			}
+			if nt == 0 {
+				s = append(s, Batch{High: id, WaitMS: 100})
+			}
+			sc.Scripts[name], sc.Final[name] = s, id
+			// reads at once, processes 15 ms per task in the background, stays silent from 2.5 s to 10-20 s: when it
+			// resumes, its low watermark lies in the middle of more than a thousand outstanding entries
+			sc.Targets[name] = TargetBeh{AsyncProcess: true, PerTaskMS: 15, AckPauseFromMS: 2500, AckPauseToMS: 10000 + rng.Intn(10000)}
+		}
+	}
+	sc.HorizonS = 600
+	return sc
+}
